@@ -1,7 +1,7 @@
 (* Props/C09.v — calibration statistics are exact, order-faithful, resumable. *)
 From VF Require Import Base.Prelude Gen.Enums Gen.Configs Gen.Scopes
      Model.Recipe Model.Check Model.Graph Model.Plan Model.Calib
-     Proofs.ListFacts Proofs.CalibProofs.
+     Proofs.ListFacts Proofs.CalibProofs Proofs.ResumeProofs.
 
 (* For every model, recipe, matcher, sample index and incoming store: one
    calibration sample changes the entry of a tensor either not at all or by
@@ -36,6 +36,42 @@ Proof.
   destruct o; cbn; discriminate.
 Qed.
 Print Assumptions C09_entries_stay_recorded.
+
+(* RESUMABILITY.  [run_samples samples s0] is the calibration loop from a store
+   s0 (initialisation only when s0 is empty) over a list of samples, each with
+   its label and the number of accumulated I/O-operator copies; the modelled
+   Quantizer.calibrate without previous result is run_samples over samples
+   0..n-1 with k+1 copies on sample k.
+   (a) the number of accumulated copies (>= 1) of the virtual INPUT/OUTPUT
+       operators never influences the store: a resumed session (copies restart
+       at 1) treats a sample exactly like an uninterrupted one;
+   (b) calibrating on D1 and continuing on D2 from the returned store gives
+       EXACTLY the store of one pass over D1 ++ D2 — for every model, recipe,
+       matcher and split, including the corner where D1 recorded nothing. *)
+Theorem C09_io_operator_copies_are_irrelevant :
+  forall matches rules bufs scope_id m gi g ad c k s,
+    one_sample_gen matches rules bufs scope_id m gi g ad (S c) k s
+    = one_sample_gen matches rules bufs scope_id m gi g ad 1 k s.
+Proof. exact copies_irrelevant. Qed.
+Print Assumptions C09_io_operator_copies_are_irrelevant.
+
+Theorem C09_resume_equals_one_pass :
+  forall matches rules bufs scope_id m adjy gi g ad d1 d2,
+    run_samples matches rules bufs scope_id m adjy gi g ad (d1 ++ d2) []
+    = (s <- run_samples matches rules bufs scope_id m adjy gi g ad d1 [] ;;
+       run_samples matches rules bufs scope_id m adjy gi g ad d2 s).
+Proof. exact resume. Qed.
+Print Assumptions C09_resume_equals_one_pass.
+
+Theorem C09_calibrate_is_run_samples :
+  forall matches rules bufs scope_id m adjy sig n g ad,
+    need_calibration rules = true ->
+    py_index (m_subgraphs m) sig = Ok g -> py_index adjy sig = Ok ad ->
+    calibrate matches rules bufs scope_id m adjy sig None n
+    = run_samples matches rules bufs scope_id m adjy sig g ad
+        (map (fun k => (Z.to_nat (k + 1), k)) (map Z.of_nat (seq 0 (Z.to_nat n)))) [].
+Proof. exact calibrate_is_run_samples. Qed.
+Print Assumptions C09_calibrate_is_run_samples.
 
 Example C09_nonvacuous :
   step_of 1 (7, []) (Some (QSample (7, []) 0)) = Some (QUpd (QSample (7, []) 0) (QSample (7, []) 1)) /\
